@@ -10,9 +10,9 @@ open SmppVerif SmppVerif.Wire
 def keeperTie (I T : Nat) : Nat → List Nat → Bool
   | _, [] => false
   | s, a :: rest =>
-    if a ≤ s then (a = s) || keeperTie I T s rest
+    if a ≤ s then keeperTie I T s rest
     else if a < s + I then keeperTie I T a rest
-    else if a < s + I + T then (a = s + I) || keeperTie I T a rest
+    else if a < s + I + T then keeperTie I T a rest
     else a = s + I + T
 
 def step (ws : List String) : Option String :=
